@@ -1,7 +1,7 @@
 """C19: a malformed trash entry never prevents the well-formed ones from
 being handled."""
 import os
-from . import purge, restore, readers, dates, scenarios
+from . import purge, restore, readers, dates, scenarios, options
 
 PROPERTY = 'C19'
 LEVEL_NOTE = ('for each reader the per-entry body is proved exception-free for '
@@ -11,6 +11,9 @@ LEVEL_NOTE = ('for each reader the per-entry body is proved exception-free for '
               'arbitrary listing); sorting is total for every mix of dated and '
               'undated entries')
 EXPECTED = [
+    'list-options/trash-dirs-are-the-option-values-in-order',
+    'list-options/attribute-is-the-date-unless-size',
+    'list-options/action-is-listing-unless-the-last-action-flag-says-otherwise',
     'restore-reader/offered-iff-well-formed',
     'restore-reader/malformed-entry-gets-a-diagnostic-about-itself',
     'list-reader/one-line-iff-well-formed',
@@ -32,6 +35,7 @@ def build(S, tier, seed):
     purge.rm_vc(S)
     purge.empty_vc(S, dry_run=False)
     restore.sort_vc(S)
+    options.list_options_vc(S)
 
 
 MALFORMED = [
